@@ -6,8 +6,7 @@
   the code as it is now (the rune loop at the top of `bech32.Decode`).
 -/
 import Proofs.Bech32Keys
-import Proofs.Bech32Typo
-import Proofs.Bech32Tables
+import Proofs.Bech32Distance
 namespace AgeModel
 namespace Props.C09
 open Bech32 Keys
@@ -19,6 +18,9 @@ theorem x25519_recipient_roundtrip (k : Bytes) (hk : k.length = 32) :
   obtain ⟨s, _, h2, h3⟩ := decode_recipientString k
   rw [h2]
   simp only [parseX25519Recipient, h3, ne_eq, not_true_eq_false, if_false, hk]
+
+example : parseX25519Recipient (recipientString (List.replicate 32 0x42)) = .ok (List.replicate 32 0x42) :=
+  x25519_recipient_roundtrip _ (by decide)
 
 theorem x25519_identity_roundtrip (k : Bytes) (hk : k.length = 32) :
     parseX25519Identity (identityString k) = .ok k := by
@@ -250,6 +252,22 @@ theorem reject_nonzero_padding (H d5 cs : Bytes) (h : Assembled H d5 cs) (hr : 5
   apply rejected_of_decode
   rw [decode_of_assembled h, (convertBits_5_8_cases d5 h.2.2.2.1).2 hr hnz]
 
+/-- the hypotheses of `reject_nonzero_padding` are satisfiable: HRP "age", 51 zero symbols and a final
+    symbol 1 (52 symbols = 32 bytes + 4 padding bits `0001`) -/
+example : ∃ cs, Assembled hrpAge (List.replicate 51 0 ++ [1]) cs ∧ 5 * (List.replicate 51 (0 : UInt8) ++ [1]).length % 8 < 5 ∧
+    (flatBits 5 (List.replicate 51 0 ++ [1])).drop (5 * (List.replicate 51 (0 : UInt8) ++ [1]).length -
+      5 * (List.replicate 51 (0 : UInt8) ++ [1]).length % 8) ≠
+      List.replicate (5 * (List.replicate 51 (0 : UInt8) ++ [1]).length % 8) false := by
+  have hall : ∀ x ∈ (List.replicate 51 (0 : UInt8) ++ [1]) ++ createChecksum hrpAge (List.replicate 51 0 ++ [1]),
+      x.toNat < 32 := by
+    intro x hx
+    rcases List.mem_append.mp hx with hx | hx
+    · revert x; decide +kernel
+    · exact createChecksum_lt _ _ x hx
+  obtain ⟨cs, c1, _⟩ := chars_of_syms _ hall
+  exact ⟨cs, ⟨hrpAge_ok.1, hrpAge_ok.2.1, hrpAge_ok.2.2, fun x hx => hall x (List.mem_append_left _ hx), c1⟩,
+    by decide, by decide +kernel⟩
+
 /-- surplus padding: five or more left-over bits (a whole unnecessary symbol) -/
 theorem reject_surplus_padding (H d5 cs : Bytes) (h : Assembled H d5 cs) (hr : 5 * d5.length % 8 ≥ 5) :
     RejectedWith (H ++ 0x31 :: cs) (· = .badPaddingIllegal) := by
@@ -286,20 +304,29 @@ theorem polymod_xor_linear (x y : Bytes) (a b : Nat) (hl : x.length = y.length) 
   `decode_distance` only ever compares two strings that both decoded with the
   same HRP. -/
 
-/-- the Bech32 code has no non-zero codeword-difference of weight ≤ 3 within 58 symbols;
-    the finite facts come from `decide +kernel` in Proofs/Bech32Tables.lean -/
-theorem no_low_weight_codeword_le3 : NoLowWeight 3 :=
-  noLowWeight_of_facts 3 (by decide) fact2 (fun _ => fact3) (fun h => absurd h (by decide))
+/-- the Bech32 code fact for the length of native age strings: no non-zero error pattern of
+    weight ≤ 4 within 58 symbols has zero syndrome.  Entirely by kernel computation
+    (`decide +kernel`, no `native_decide`): Proofs/Bech32Tables.lean (weights 2, 3),
+    Proofs/Bech32Pairs0..3.lean with the GF(32)-linearity of Proofs/Bech32Scalar.lean (weight 4). -/
+theorem no_low_weight_codeword : NoLowWeight 4 := noLowWeight4
 
-/-- a native recipient or identity string in which one, two or three characters
-    have been replaced is never accepted -/
-theorem typo_rejected_le3 (k s' : Bytes) (hk : k.length = 32) :
-    (s'.length = (recipientString k).length → s' ≠ recipientString k → hamming (recipientString k) s' ≤ 3 →
+/-- a native recipient or identity string in which up to four characters have been
+    replaced is never accepted (for every 32-byte key, every such string) -/
+theorem typo_rejected (k s' : Bytes) (hk : k.length = 32) :
+    (s'.length = (recipientString k).length → s' ≠ recipientString k → hamming (recipientString k) s' ≤ 4 →
       ∃ e, parseX25519Recipient s' = .error e) ∧
-    (s'.length = (identityString k).length → s' ≠ identityString k → hamming (identityString k) s' ≤ 3 →
+    (s'.length = (identityString k).length → s' ≠ identityString k → hamming (identityString k) s' ≤ 4 →
       ∃ e, parseX25519Identity s' = .error e) :=
-  ⟨fun hl hne hd => recipient_typo 3 no_low_weight_codeword_le3 k s' hk hl hne hd,
-   fun hl hne hd => identity_typo 3 no_low_weight_codeword_le3 k s' hk hl hne hd⟩
+  ⟨fun hl hne hd => recipient_typo 4 no_low_weight_codeword k s' hk hl hne hd,
+   fun hl hne hd => identity_typo 4 no_low_weight_codeword k s' hk hl hne hd⟩
+
+/-- the hypotheses are satisfiable: "age1gfpyysjz…pqxkm8f4" (the key 0x42…42) with characters 10, 20, 30
+    and 40 replaced by `q` -/
+example : ∃ s', s'.length = (recipientString (List.replicate 32 0x42)).length ∧
+    s' ≠ recipientString (List.replicate 32 0x42) ∧ hamming (recipientString (List.replicate 32 0x42)) s' = 4 :=
+  ⟨[97, 103, 101, 49, 103, 102, 112, 121, 121, 115, 113, 122, 103, 102, 112, 121, 121, 115, 106, 122, 113, 102, 112,
+    121, 121, 115, 106, 122, 103, 102, 113, 121, 121, 115, 106, 122, 103, 102, 112, 121, 113, 115, 106, 122, 103, 102,
+    112, 121, 121, 115, 106, 122, 103, 102, 112, 113, 120, 107, 109, 56, 102, 52], by decide +kernel⟩
 
 end Props.C09
 end AgeModel
